@@ -6236,7 +6236,11 @@ impl<'a, 'graph> Builder<'a, 'graph> {
                 }
                 .into_box(),
               )
-            } else if redirect_count >= loader.max_redirects() {
+            } else if redirect_count >= loader.max_redirects()
+              // following a redirect to the requested url itself would never
+              // settle the request
+              || specifier == load_specifier
+            {
               Err(
                 ModuleErrorKind::Load {
                   specifier: load_specifier.clone(),
